@@ -247,6 +247,7 @@ def run(ctx, rep):
     no_view_stored(F, rep, ctx)
     code_labels(ctx, rep)
     receiver_is_bound(ctx, rep)
+    self_constructor_finds_its_class(ctx, rep)
     # `a.f op= v` reads and writes the field of *one* object: the target path (which may call a method or a constructor) is laid down once
     from props import C15 as _c15
     from core import Report as _Report
@@ -543,3 +544,40 @@ def methods_made_before_fields(ctx, rep):
     rep.ob("C08.method-captures", "in a class body every function (methods, constructor) is made before any field is declared",
            "violated" if problems else "ok", "; ".join(sorted(set(problems))[:3]) if problems else "%d method site(s), %d field site(s)" % (len(M), len(V)),
            feat_calls[0].span, fn=f.path, key="C08.method-captures")
+
+
+def self_constructor_finds_its_class(ctx, rep, rule="C08.self-constructor"):
+    """`Self(..)` inside a class calls the constructor of that class.  The expression generator turns it into `load_self_export <class name>`, which
+    reads the *exports* of the running module; the class generator enters a class into the exports only when it is declared at module level
+    (`export_special`) and binds the class of a function body as a local of the call (`store_fast`).  Wherever a class can be bound without being
+    exported, the constructor reference needs another way to reach it (or the parser has to refuse `Self(..)` there): otherwise each such
+    constructor call fails at run time (`has not been exported from the executing module`)."""
+    import opcodes
+    F = ctx.facts("default", ["compiler", "bytecode"])
+    lits = opcodes.instruction_literals(F)
+    cls = [f for f in F.crates["compiler"].fns if f.path == "<compiler::ast::class::Class as compiler::ast::Compile>::compile"]
+    cd = F.fn("compiler::ast::math_expr::compile_depth")
+    if len(cls) != 1 or cd is None:
+        raise AnchorMissing("impl Compile for Class / compile_depth")
+    binds = sorted({nm for f_, nm, sp, c in lits if f_ is cls[0] and nm in ("export_special", "store_fast", "store", "export_name")})
+    refs = sorted({nm for f_, nm, sp, c in lits if f_ is cd and nm in ("load_self_export",)})
+    rep.floor(rule + " ways a class is bound", len(binds), 1)
+    local_binding = [b for b in binds if b in ("store_fast", "store")]
+    # the generator of the constructor reference: the arm of compile_depth that emits load_self_export; does it have an alternative?
+    alt = False
+    for f_, nm, sp, c in lits:
+        if f_ is cd and nm == "load_self_export":
+            doms = set(b for b in range(len(cd.blocks)) if cd.dominates(b, c.bb))
+            # a sibling emission under the same variant test (same immediate switch) of a plain load
+            for f2, nm2, sp2, c2 in lits:
+                if f2 is cd and nm2 in ("load", "load_fast", "load_callback") and c2 is not c:
+                    common = [b for b in doms if cd.dominates(b, c2.bb) and cd.blocks[b]["t"]["k"] == "switch"]
+                    inner = [b for b in common if all(cd.dominates(x, b) or x == b for x in common)]
+                    if inner and any("ReferenceToConstructor" in str(s_) for s_ in cd.blocks[inner[0]]["s"]):
+                        alt = True
+    bad = bool(local_binding) and bool(refs) and not alt
+    rep.ob(rule, "`Self(..)` reaches the class wherever the class can be bound (module exports for a module-level class, a variable for a class of a function body)",
+           "violated" if bad else "ok",
+           ("the class generator binds a class with %s, the constructor reference is always `load_self_export`: in a class declared inside a function, `Self(..)` fails at run "
+            "time (not exported from the executing module)" % local_binding) if bad else "bindings: %s; reference: %s" % (binds, refs), cd.span, fn=cd.path,
+           key=rule + "|local-class")
